@@ -31,7 +31,7 @@ ADV = [0, 1, 500, 999, 1000, 1001, 5000, 9999, 10000, 10001, 60000, 843750, 1124
 
 def floors(tier):
     q = tier == "quick"
-    return {"c04.alternate": 30000 if q else 3000000, "c04.live_equals_cache": 60000 if q else 6000000, "c04.visible_in_add": 5000 if q else 400000}
+    return {"c04.alternate": 30000 if q else 3000000, "c04.live_equals_cache": 60000 if q else 6000000, "c04.visible_in_add": 5000 if q else 400000, "c04.threaded": 3 if q else 12}
 
 
 def plan(tier, seed):
@@ -39,7 +39,10 @@ def plan(tier, seed):
         n, per = 16, 400
     else:
         n, per = 64, 12000
-    return [{"seed": seed, "shard": i, "per": per, "tier": tier} for i in range(n)]
+    specs = [{"seed": seed, "shard": i, "per": per, "tier": tier} for i in range(n)]
+    for k in range(2 if tier == "quick" else 8):
+        specs.append({"seed": seed, "shard": 2000 + k, "per": 0, "tier": tier, "threaded": 3})
+    return specs
 
 
 def make_listener_class():
@@ -279,15 +282,95 @@ def run_history(res: Result, seed: int, length: int) -> None:
         res.sample({"steps": run.steps[:8], "callbacks": [list(x) for x in run.log[:10]]})
 
 
+def run_threaded(res: Result, seed: int) -> None:
+    """Real-time variant for the thread-based ServiceBrowser (queue + dedicated thread) on a Zeroconf with its own loop thread."""
+    import threading
+    import time
+    import zeroconf._dns as d
+    from zeroconf import ServiceBrowser, ServiceListener, Zeroconf
+    rng = random.Random(seed)
+    res.evaluations += 1
+    lock = threading.Lock()
+    state: Dict[str, str] = {}
+    problems: List[str] = []
+    T = TYPES[0]
+
+    class L(ServiceListener):
+        def _cb(self, kind: str, zc: Any, name: str) -> None:
+            with lock:
+                prev = state.get(name.lower())
+                if kind == "A" and prev == "A":
+                    problems.append("double Added(%s)" % name)
+                if kind == "R" and prev != "A":
+                    problems.append("Removed(%s) without Added" % name)
+                if kind == "A":
+                    # lookups from inside add_service (browser thread) must see the record
+                    if not any(isinstance(r, d.DNSPointer) and r.alias.lower() == name.lower() for r in zc.cache.entries_with_name(T)):
+                        problems.append("add_service(%s): PTR not in the cache" % name)
+                state[name.lower()] = kind
+
+        def add_service(self, zc: Any, t: str, n: str) -> None:
+            self._cb("A", zc, n)
+
+        def remove_service(self, zc: Any, t: str, n: str) -> None:
+            self._cb("R", zc, n)
+
+        def update_service(self, zc: Any, t: str, n: str) -> None:
+            pass
+
+    try:
+        with simnet.RealTimeRig() as rig:
+            zc = Zeroconf()
+            browser = ServiceBrowser(zc, T, listener=L())
+            time.sleep(0.15)
+            steps = []
+            for i in range(rng.choice([6, 12, 20])):
+                inst = rng.choice(INST[T])
+                if rng.random() < 0.25:
+                    inst = inst.upper()
+                ttl = rng.choice([0, 0, 1, 4500])
+                steps.append((inst, ttl))
+                rig.inject(zc, R.build_response([(("PTR", T, (inst,)), ttl, False)], id_=i + 1))
+                time.sleep(rng.choice([0.0, 0.002, 0.02]))
+            time.sleep(0.4)
+            res.mon("c04.threaded")
+            with lock:
+                live = {k for k, v in state.items() if v == "A"}
+                probs = list(problems)
+            fut = __import__("asyncio").run_coroutine_threadsafe(_cached(zc, T), zc.loop)
+            cached = fut.result(5)
+            if probs:
+                res.violation("c04.alternate", "threaded_" + ("double_add" if "double" in probs[0] else "callback_order"), "thread browser: %s (steps %r)" % (probs[0], steps), {}, {"seed": seed, "threaded": True})
+            if live != cached:
+                res.violation("c04.live_equals_cache", "threaded_live_differs_from_cache", "thread browser live %r cache %r after %r" % (sorted(live), sorted(cached), steps), {}, {"seed": seed, "threaded": True})
+            if rig.net.escapes:
+                res.violation("c04.alternate", "threaded_loop_exception", repr(rig.net.escapes[0])[:500], {}, {"seed": seed, "threaded": True})
+            browser.cancel()
+            zc.close()
+            res.cls("threaded", "steps=%d" % len(steps))
+    except Exception as e:
+        res.inconclusive.append("threaded browser run crashed in harness: %r" % (e,))
+
+
+async def _cached(zc: Any, T: str) -> Set[str]:
+    import zeroconf._dns as d
+    return {r.alias.lower() for r in zc.cache.entries_with_name(T) if isinstance(r, d.DNSPointer)}
+
+
 def run_shard(spec):
     res = Result()
     rng = rng_for("c04", spec["seed"], spec["shard"])
     for _ in range(spec["per"]):
         run_history(res, rng.randrange(1 << 30), rng.choice([6, 12, 25, 50]))
+    for _ in range(spec.get("threaded", 0)):
+        run_threaded(res, rng.randrange(1 << 30))
     return res
 
 
 def replay(blob):
     res = Result()
+    if blob.get("threaded"):
+        run_threaded(res, blob["seed"])
+        return res
     run_history(res, blob["seed"], blob["length"])
     return res
